@@ -201,6 +201,10 @@ def operators(ctx, envs):
                 barg = a                  # s |= s, s &= s, s -= s, s ^= s
                 B = set(A)
                 want = {"|": A | B, "&": A & B, "-": A - B, "^": A ^ B}[sym[0]]
+            elif not inplace and rng.random() < 0.08:
+                barg = a                  # x | x, x & x, x - x, x ^ x: the same OBJECT on both sides
+                B = set(A)
+                want = {"|": A | B, "&": A & B, "-": A - B, "^": A ^ B}[sym[0]]
             elif inplace and sb[0] in ("list", "tuple") and rng.random() < 0.4:
                 # a one-shot iterable operand (iterator / generator)
                 barg = iter(b) if rng.random() < 0.5 else (x for x in b)
@@ -211,6 +215,12 @@ def operators(ctx, envs):
                 ok = keys == sorted(want)
                 if inplace and r is not a:
                     ok = False
+                if not inplace and barg is a and ok:
+                    # ... must give what an equal but distinct operand gives: same kind of result, same entries
+                    r2 = ops[sym](a, env.build(sa))
+                    same_entries = (list(r.items()) == list(r2.items())) if hasattr(r2, "items") and hasattr(r, "items") else (list(r) == list(r2))
+                    if type(r) is not type(r2) or not same_entries:
+                        ok, keys = False, "x %s x gives a %s, x %s equal-copy gives a %s" % (sym, type(r).__name__, sym, type(r2).__name__)
                 if sym == "-" and sa[0] in ("Bucket", "BTree") and ok:
                     ok = [(env.km.ik(k), env.unval(v)) for k, v in r.items()] == [(k, v) for k, v in zip(sa[1], sa[2]) if k in want]
             except Exception as e:  # noqa
